@@ -39,12 +39,12 @@ pub fn run(args: &Args) {
                 }
             }
             res.case(p * 1000 + k, k >= 1 && k < N);
-            let out: Result<_, ()> = Ok(get_latest_volume("KDMX").await);
+            let out = guarded_async(get_latest_volume("KDMX")).await;
             let lists = sim.log().iter().filter(|r| r.is_list()).count();
             match out {
                 Ok(Ok(r)) => tr.ev(json!({"ep": 1, "n": N, "p": p, "k": k, "vol": r.volume.map(|v| v.as_number()).unwrap_or(0), "calls": r.calls, "counted": lists})),
                 Ok(Err(e)) => res.mismatch("violation", "C15/get_latest_volume/error", format!("{e:?}"), json!({"p": p, "k": k})),
-                Err(_) => res.mismatch("violation", "C15/get_latest_volume/hang", "no result".into(), json!({"p": p, "k": k})),
+                Err(msg) => res.mismatch("violation", "C15/get_latest_volume/panic", msg, json!({"p": p, "k": k})),
             }
         }
         // two discoveries at once (different sites, one runtime): each reports the listings IT issued, whatever else the
@@ -63,13 +63,14 @@ pub fn run(args: &Args) {
                     }
                 }
             }
-            let (ra, rb) = tokio::join!(get_latest_volume("KDMX"), get_latest_volume("KTLX"));
+            let (ra, rb) = tokio::join!(guarded_async(get_latest_volume("KDMX")), guarded_async(get_latest_volume("KTLX")));
             for (site, (p, k), r) in [("KDMX", shapes2[0], ra), ("KTLX", shapes2[1], rb)] {
                 res.case(p * 1000 + k + 7_000_000 + n_pair as u64, true);
                 let lists = sim.log().iter().filter(|q| q.is_list() && q.q("prefix").map(|x| x.starts_with(site)).unwrap_or(false)).count();
                 match r {
-                    Ok(r) => tr.ev(json!({"ep": 1, "n": N, "p": p, "k": k, "vol": r.volume.map(|v| v.as_number()).unwrap_or(0), "calls": r.calls, "counted": lists, "concurrent": true})),
-                    Err(e) => res.mismatch("violation", "C15/get_latest_volume/error", format!("{e:?}"), json!({"p": p, "k": k, "concurrent": true})),
+                    Ok(Ok(r)) => tr.ev(json!({"ep": 1, "n": N, "p": p, "k": k, "vol": r.volume.map(|v| v.as_number()).unwrap_or(0), "calls": r.calls, "counted": lists, "concurrent": true})),
+                    Ok(Err(e)) => res.mismatch("violation", "C15/get_latest_volume/error", format!("{e:?}"), json!({"p": p, "k": k, "concurrent": true})),
+                    Err(msg) => res.mismatch("violation", "C15/get_latest_volume/panic", msg, json!({"p": p, "k": k, "concurrent": true})),
                 }
             }
         }
